@@ -231,6 +231,38 @@ def run(ctx):
     else:
         r3.ok("%s: ready with nothing awaited neither rings nor asks the sub-socket for anything" % cu.qname, "path exploration")
 
+    # (d) the awaited condition belongs to the application: a transport writes the condition of its sub-sockets only,
+    #     never that of the socket it was called on (a bit or-ed in there would stick after its reason is gone)
+    nupd = 0
+    for t in tables:
+        for slot, f in t.slots.items():
+            if f is None:
+                continue
+            for g in [f] + [h for h in P.fns_in(f.file.split("/")[-1]) if h.static and h is not f]:
+                key = (g.file, g.name)
+                if key in getattr(run, "_seen_d", set()):
+                    continue
+                run._seen_d = getattr(run, "_seen_d", set()) | {key}
+                for b, i, e, lhs, rhs, op in g.stores():
+                    ln = g.sn(lhs)
+                    if ln["k"] == "member" and ln["field"] == "condition" and ln.get("record") == "xcm_socket":
+                        base = g.sn(ln["base"])
+                        if base["k"] == "ref" and base.get("dk") == "param" and g.params and base["name"] == g.params[0]["name"] and (g is f):
+                            r3.instance("%s: own condition" % g.qname)
+                            r3.violation("%s:own-condition" % g.name, "%s modifies the awaited condition of the socket it was called on (%s): the change outlives its reason and the "
+                                         "descriptor stays armed for something the application never asked for" % (g.name, g.show(e)), loc=g.loc(e))
+                        else:
+                            nupd += 1
+    run._seen_d = set()
+    w_cond = sorted({f.name for f in P.functions for b, i, e, lhs, rhs, op in f.stores() if f.sn(lhs)["k"] == "member" and f.sn(lhs)["field"] == "condition"
+                     and f.sn(lhs).get("record") == "xcm_socket" and f.sn(f.sn(lhs)["base"])["k"] == "ref" and f.sn(f.sn(lhs)["base"]).get("dk") == "param"
+                     and f.params and f.sn(f.sn(lhs)["base"])["name"] == f.params[0]["name"]})
+    r3.instance("writers of a socket's own condition: %s" % w_cond)
+    if set(w_cond) <= {"await", "xcm_tp_socket_create", "sync_update"}:
+        r3.ok("a socket's own awaited condition is written only by await() and at creation (%d sub-socket assignments elsewhere)" % nupd, "who-may-write")
+    else:
+        r3.violation("condition:writers", "a socket's own awaited condition is written by %s" % w_cond, loc=None)
+
     # ------------------------------------------------------------------ R4
     r4 = ctx.rule("C16.R4", "an expired timer is acknowledged, cancelled or re-armed before the function returns")
     n4 = 0
